@@ -151,7 +151,7 @@ func init() {
 	}
 	Properties["C02"] = func(env *Env) []*Harness { return []*Harness{HMock(), HGenSeq()} }
 	Properties["C09"] = func(env *Env) []*Harness { return []*Harness{HMock()} }
-	Properties["C10"] = func(env *Env) []*Harness { return []*Harness{HMock()} }
+	Properties["C10"] = func(env *Env) []*Harness { return []*Harness{HPkgPath(), HMock()} }
 	Properties["C19"] = func(env *Env) []*Harness {
 		return []*Harness{HImports(), HMock(), HVars(), HRun(), HMain(), HPairName()}
 	}
